@@ -24,6 +24,7 @@ type caseSpec struct {
 	Limit      int64  `json:"head_size_limit,omitempty"`
 	Pattern    []int  `json:"rotate_after_records,omitempty"`
 	PayloadLen int    `json:"payload_len,omitempty"`
+	Mode       string `json:"repair_mode,omitempty"` // fresh | in-place | over-existing
 }
 
 // family coarsens a corruption class for signatures: one defect should give a handful of signatures.
